@@ -31,7 +31,7 @@ pub enum TimeVal {
 
 /// ways of spoiling a valid `YYYY-MM-DDThh:mm:ss[.f](Z|+hh:mm)` string; every result is definitely not RFC 3339
 pub const NEAR_MISS: usize = 21;
-fn spoil(valid: &str, kind: u8) -> String {
+pub fn spoil(valid: &str, kind: u8) -> String {
   let date = &valid[..10];
   let time = &valid[11..19];
   let zone = &valid[19..];
@@ -121,6 +121,11 @@ pub struct TimeCase {
   /// exactly the token's value (the default time rule for that claim must stay in force)
   #[serde(default)]
   pub also_check: u8,
+  /// the payload text carries a SECOND member of the same name: (0 = exp / 1 = nbf, its value, written before (true) or
+  /// after (false) the main one). Which occurrence counts is not specified, so only cases where both occurrences agree are
+  /// decided - plus the rule that claims handed back by a successful parse never show an expired exp / a future nbf.
+  #[serde(default)]
+  pub dup: Option<(u8, TimeVal, bool)>,
 }
 
 pub struct DefaultTimeRules {
@@ -186,19 +191,33 @@ impl Sub for DefaultTimeRules {
       _ => return Verdict::Discard,
     };
     let absolute = matches!(c.exp, TimeVal::Abs(..)) || matches!(c.nbf, TimeVal::Abs(..));
-    let mut obj = serde_json::Map::new();
+    // the payload text is written member by member (so that a name can occur twice)
+    let mut members: Vec<(String, Value)> = vec![];
+    let dup = match &c.dup {
+      Some((which, v, before)) => match v.resolve(now) {
+        Some(r) => Some((*which % 2, r, v.materialise(now), *before)),
+        None => return Verdict::Discard,
+      },
+      None => None,
+    };
+    if let Some((which, _, (Some(v), _), true)) = &dup {
+      members.push((if *which == 0 { "exp" } else { "nbf" }.to_string(), v.clone()));
+    }
     for (k, v) in &c.extra {
       if k != "exp" && k != "nbf" {
-        obj.insert(k.clone(), v.clone());
+        members.push((k.clone(), v.clone()));
       }
     }
     if let Some(v) = &exp {
-      obj.insert("exp".into(), v.clone());
+      members.push(("exp".into(), v.clone()));
     }
     if let Some(v) = &nbf {
-      obj.insert("nbf".into(), v.clone());
+      members.push(("nbf".into(), v.clone()));
     }
-    let payload = Value::Object(obj).to_string();
+    if let Some((which, _, (Some(v), _), false)) = &dup {
+      members.push((if *which == 0 { "exp" } else { "nbf" }.to_string(), v.clone()));
+    }
+    let payload = format!("{{{}}}", members.iter().map(|(k, v)| format!("{}:{}", Value::String(k.clone()), v)).collect::<Vec<_>>().join(","));
     let km = keys::material(p, &gen::arr32(&c.seed));
     let lk = km.lib().expect("valid key");
     let token = match core_build(&lk, &[3u8; 32][..if p == Proto::V2L { 24 } else { 32 }], &payload, c.footer.as_deref(), None) {
@@ -235,7 +254,33 @@ impl Sub for DefaultTimeRules {
       }
     }
     let r = parser.parse(&token, &lk);
-    let (we, wn) = (want_exp(&c_exp, exp_strict), want_nbf(&c_nbf, nbf_strict));
+    let (mut we, mut wn) = (want_exp(&c_exp, exp_strict), want_nbf(&c_nbf, nbf_strict));
+    if let Some((which, v, (val, strict), _)) = &dup {
+      if val.is_some() {
+        cl.tag(format!("member-written-twice:{}", if *which == 0 { "exp" } else { "nbf" }));
+        // decided only when both occurrences agree
+        if *which == 0 {
+          let w2 = want_exp(v, *strict);
+          if w2 != we { we = Want::DontCare; }
+        } else {
+          let w2 = want_nbf(v, *strict);
+          if w2 != wn { wn = Want::DontCare; }
+        }
+      }
+    }
+    // whatever was decided above: claims handed back by a successful parse must not themselves be expired / not yet valid
+    if let Ok(json) = &r {
+      if let Some((secs, _)) = json.get("exp").and_then(|v| v.as_str()).and_then(tgen::parse_rfc3339) {
+        if secs <= now.0 - 2 {
+          vio!("{}:returned-claims-carry-expired-exp", pid; "the default parser accepted payload {} and handed back claims whose exp {} is in the past ({}; now = {})", payload, json["exp"], p.label(), tgen::render(now.0, now.1, &Rendering { offset_min: 0, digits: 3, sep: 0, zulu: 1 }));
+        }
+      }
+      if let Some((secs, _)) = json.get("nbf").and_then(|v| v.as_str()).and_then(tgen::parse_rfc3339) {
+        if secs >= now.0 + 60 {
+          vio!("{}:returned-claims-carry-future-nbf", pid; "the default parser accepted payload {} and handed back claims whose nbf {} is in the future ({}; now = {})", payload, json["nbf"], p.label(), tgen::render(now.0, now.1, &Rendering { offset_min: 0, digits: 3, sep: 0, zulu: 1 }));
+        }
+      }
+    }
     let want = if we == Want::Reject || wn == Want::Reject {
       Want::Reject
     } else if we == Want::DontCare || wn == Want::DontCare {
@@ -336,19 +381,40 @@ fn time_val(for_exp: bool) -> BoxedStrategy<TimeVal> {
   prop_oneof![2 => Just(TimeVal::Absent), 1 => Just(TimeVal::Null), 6 => past(), 6 => future(), 2 => absolute(), 4 => not_a_timestamp().prop_map(TimeVal::NotATimestamp), 3 => near_miss(for_exp)].boxed()
 }
 
+/// other members: plain ones, and decoys - nested objects / arrays / strings that repeat the registered names and carry
+/// timestamps of either direction, names one character away from exp / nbf. None of them is the top-level exp / nbf.
 fn extras() -> BoxedStrategy<Vec<(String, Value)>> {
-  proptest::collection::vec(("[a-z]{1,5}", gen::json_leaf()), 0..3).boxed()
+  let stamp = || prop_oneof![Just(json!("1999-01-01T00:00:00Z")), Just(json!("2999-01-01T00:00:00Z")), Just(json!(0)), Just(Value::Null), Just(json!("never"))];
+  let decoy = prop_oneof![
+    2 => (stamp(), stamp()).prop_map(|(a, b)| json!({"exp": a, "nbf": b})),
+    1 => (stamp(), stamp()).prop_map(|(a, b)| json!([{"exp": a}, {"nbf": b}, {"nbf": "2999-01-01T00:00:00Z", "exp": "1999-01-01T00:00:00Z"}])),
+    1 => stamp().prop_map(|a| json!({"token": {"claims": {"exp": a, "iat": "2999-01-01T00:00:00Z"}}})),
+    1 => Just(json!("{\"exp\":\"1999-01-01T00:00:00Z\",\"nbf\":\"2999-01-01T00:00:00Z\"}")),
+    1 => Just(json!("\"exp\":")),
+    1 => stamp(),
+  ];
+  let name = prop_oneof![3 => "[a-z]{1,5}".prop_map(|s: String| s), 1 => Just("renewed_from".to_string()), 1 => Just("Exp".to_string()), 1 => Just("exp ".to_string()), 1 => Just("NBF".to_string()), 1 => Just("expires".to_string()), 1 => Just("nbf\u{0}".to_string()), 1 => Just("ex".to_string())];
+  proptest::collection::vec((name, prop_oneof![3 => gen::json_leaf(), 2 => decoy]), 0..4).boxed()
+}
+
+fn dup(for_exp_only: bool) -> BoxedStrategy<Option<(u8, TimeVal, bool)>> {
+  let which: BoxedStrategy<u8> = if for_exp_only { Just(0u8).boxed() } else { (0u8..2).boxed() };
+  prop_oneof![
+    6 => Just(None),
+    1 => (which, prop_oneof![3 => past(), 3 => future(), 1 => not_a_timestamp().prop_map(TimeVal::NotATimestamp), 1 => Just(TimeVal::Null)], any::<bool>()).prop_map(|(w, v, b)| Some((w, v, b))),
+  ]
+  .boxed()
 }
 
 fn case(pid: &'static str, proto: Proto) -> BoxedStrategy<TimeCase> {
   let (e, n): (BoxedStrategy<TimeVal>, BoxedStrategy<TimeVal>) = if pid == "C11" { (time_val(true), Just(TimeVal::Absent).boxed()) } else { (prop_oneof![3 => Just(TimeVal::Absent), 2 => past(), 3 => future(), 1 => not_a_timestamp().prop_map(TimeVal::NotATimestamp), 1 => Just(TimeVal::Null)].boxed(), time_val(false)) };
-  (gen::bytes32(), e, n, extras(), prop_oneof![Just(None), Just(Some("f".to_string()))], prop_oneof![4 => Just(0u8), 1 => Just(1u8), 1 => Just(2u8)]).prop_map(move |(seed, exp, nbf, extra, footer, also_check)| TimeCase { proto, seed, exp, nbf, extra, footer, also_check }).boxed()
+  (gen::bytes32(), e, n, extras(), prop_oneof![Just(None), Just(Some("f".to_string()))], prop_oneof![4 => Just(0u8), 1 => Just(1u8), 1 => Just(2u8)], dup(pid == "C11")).prop_map(move |(seed, exp, nbf, extra, footer, also_check, dup)| TimeCase { proto, seed, exp, nbf, extra, footer, also_check, dup }).boxed()
 }
 
 /// deterministic grid: every UTC offset hour -23..=23 (+ :59) x fractional digits x {past, future} near the boundary margins
 fn grid(pid: &'static str, proto: Proto) -> Vec<TimeCase> {
   let mut out = vec![];
-  let mk = |exp: TimeVal, nbf: TimeVal| TimeCase { proto, seed: vec![5u8; 32], exp, nbf, extra: vec![("sub".into(), json!("grid"))], footer: None, also_check: 0 };
+  let mk = |exp: TimeVal, nbf: TimeVal| TimeCase { proto, seed: vec![5u8; 32], exp, nbf, extra: vec![("sub".into(), json!("grid"))], footer: None, also_check: 0, dup: None };
   for h in -23i16..=23 {
     for (mi, digits) in [(0i16, 0u8), (59, 3), (30, 9)] {
       let off = h * 60 + if h < 0 { -mi } else { mi };
